@@ -23,7 +23,8 @@ Sentence of the property → theorem (all for every chain length / nesting / inp
   `seqCall_frame`.  "changes neither the variable … so repeated application to equal values gives equal results":
   in the model `call` is a function of the variable and the value and returns no new variable, so this is true by
   construction; the harness checks it on the real objects (var_context snapshots, every value applied twice).
-* the documented rejections of the constructors → `mkVariable_rejects`, `mkCompose_rejects`, `mkCombine_rejects`. -/
+* the documented rejections of the constructors → `mkVariable_rejects`, `mkCompose_rejects`, `mkCombine_rejects`;
+  an observation about the `name` keyword of `Compose` → `compose_name_keyword_ignored`. -/
 namespace Lena.C14
 open V
 
@@ -801,5 +802,53 @@ example :
      | .ok c => (getSlot c.varCtx (kName ns), c.getter 5)
      | .error _ => (none, 0)) = (some (.str "x_y"), 16) := by rfl
 
+
+section
+variable {names : List String} {D : Type}
+
+/-! ### keyword arguments of `Compose` -/
+
+/-- **The keyword `name` of `Compose` has no effect** (observation, see the builder's report: the docstring says
+it "can set the name of the composed variable", but the name is only passed to `Variable.__init__`, whose
+`var_context` is replaced in line 372): whenever `Compose(*args, **kw)` without the keyword can be constructed,
+`Compose(*args, name=x, **kw)` is the same variable — its name stays the last variable's name. -/
+theorem compose_name_keyword_ignored (hn : NamesOK names) (fx : Bool) (args : List (Option (Variable D)))
+    (kw : Slots) (x : V) {c : Variable D}
+    (h : mkCompose names fx args (setSlot kw (kName names) none) = .ok c) :
+    mkCompose names fx args (setSlot kw (kName names) (some x)) = .ok c := by
+  have hgn : kGetter names ≠ kName names := by
+    intro he
+    have := key_inj hn.hName he.symm
+    simp at this
+  have hg : ∀ v, hasKey (setSlot kw (kName names) v) (kGetter names) = hasKey kw (kGetter names) := by
+    intro v; simp [hasKey, getSlot_setSlot, hgn]
+  unfold mkCompose at h ⊢
+  split at h
+  · cases h
+  · rename_i hall
+    simp only [hall] at ⊢
+    simp only [] at h ⊢
+    split at h
+    · cases h
+    · rename_i v1 rest hvars
+      rw [hvars]
+      simp only [hg] at h ⊢
+      split at h
+      · cases h
+      · rename_i hnog
+        simp only [hnog]
+        split at h
+        · cases h
+        · rename_i compose hfold
+          have e1 : getSlot (setSlot kw (kName names) none) (kName names) = none := by simp [getSlot_setSlot]
+          have e2 : getSlot (setSlot kw (kName names) (some x)) (kName names) = some x := by simp [getSlot_setSlot]
+          rw [e1, hvars] at h
+          rw [e2]
+          simp only [setSlot_setSlot, Bool.false_eq_true, if_false] at h ⊢
+          cases hnm : nameOf names ((v1 :: rest).getLast (by simp)) with
+          | error e => rw [hnm] at h; cases h
+          | ok a => rw [hnm] at h; exact h
+
+end
 
 end Lena.C14
